@@ -56,6 +56,8 @@ QRemoveLabel(k, ret)   == "MATCH " \o NodePat("n", k) \o " REMOVE n:B" \o RetN(r
 QDeleteNode(k)         == "MATCH " \o NodePat("n", k) \o " DELETE n"
 QDetachDelete(k)       == "MATCH " \o NodePat("n", k) \o " DETACH DELETE n"
 QCreateRel(a, b, ret)  == "MATCH " \o NodePat("a", a) \o ", " \o NodePat("b", b) \o " CREATE (a)-[r:T]->(b)" \o RetR(ret)
+\* the same creation, returning both end nodes and the relationship (a node and a relationship can carry the same number)
+QCreateRelAll(a, b)    == "MATCH " \o NodePat("a", a) \o ", " \o NodePat("b", b) \o " CREATE (a)-[r:T]->(b) RETURN a, r, b"
 QSetRelProp(a, b, v, ret) == "MATCH " \o RelPat(a, b) \o " SET r.w = " \o ToString(v) \o RetR(ret)
 QDeleteRel(a, b)       == "MATCH " \o RelPat(a, b) \o " DELETE r"
 
@@ -155,6 +157,8 @@ RemoveLabel(r, k, ret, pm)    == RemoveLabelG(k) /\ PersistAs(pm, r, IF ret THEN
 DeleteNode(r, k, pm)          == DeleteNodeG(k) /\ PersistAs(pm, r, {}, {})
 DetachDelete(r, k, pm)        == DetachDeleteG(k) /\ PersistAs(pm, r, {}, {})
 CreateRel(r, a, b, eid, ret, pm) == CreateRelG(a, b, eid) /\ PersistAs(pm, r, {}, IF ret /\ CreatesRel(a, b) THEN {eid} ELSE {})
+CreateRelAll(r, a, b, eid, pm) == CreateRelG(a, b, eid) /\ PersistAs(pm, r, IF CreatesRel(a, b) THEN Match(a) \cup Match(b) ELSE {},
+                                                                       IF CreatesRel(a, b) THEN {eid} ELSE {})
 SetRelProp(r, a, b, v, ret, pm)  == v \in Vals /\ SetRelPropG(a, b, v) /\ PersistAs(pm, r, {}, IF ret THEN RelsBetween(a, b) ELSE {})
 DeleteRel(r, a, b, pm)        == DeleteRelG(a, b) /\ PersistAs(pm, r, {}, {})
 
